@@ -258,8 +258,10 @@ impl Core {
                 let tls_listener = tls_listener.clone();
                 async move {
                     log_id!(trace, client_id, "Starting TLS handshake");
-                    let handshake_timeout = context.settings.tls_handshake_timeout;
-                    match tokio::time::timeout(handshake_timeout, tls_listener.listen(stream))
+                    // one deadline for the whole handshake: reading the ClientHello and the rest
+                    let handshake_deadline =
+                        tokio::time::Instant::now() + context.settings.tls_handshake_timeout;
+                    match tokio::time::timeout_at(handshake_deadline, tls_listener.listen(stream))
                         .await
                         .unwrap_or_else(|_| Err(io::Error::from(ErrorKind::TimedOut)))
                     {
@@ -274,6 +276,7 @@ impl Core {
                                 acceptor,
                                 client_addr.ip(),
                                 client_id,
+                                handshake_deadline,
                             )
                             .await
                             {
@@ -331,6 +334,7 @@ impl Core {
         acceptor: TlsAcceptor,
         client_ip: std::net::IpAddr,
         client_id: log_utils::IdChain<u64>,
+        handshake_deadline: tokio::time::Instant,
     ) -> Result<(), (log_utils::IdChain<u64>, String)> {
         log_id!(
             trace,
@@ -397,8 +401,8 @@ impl Core {
             "Accepting TLS connection with protocol {:?}",
             tls_connection_meta.protocol
         );
-        let stream = match tokio::time::timeout(
-            context.settings.tls_handshake_timeout,
+        let stream = match tokio::time::timeout_at(
+            handshake_deadline,
             acceptor.accept(
                 tls_connection_meta.protocol,
                 tls_connection_meta.cert_chain,
